@@ -400,12 +400,42 @@ class Taint:
                     return self.root_of(name, src, depth + 1)
         return l
 
+    def place_of(self, name, l, depth=0):
+        """The place a local is a plain copy of, as (base local, projection): `x = copy ((_o as Some).0)` and
+        `r = &((_o as Some).0); t = copy (*r)` name the same place (a match guard compares through a reference, the arm binds
+        by value). None when l is not such a copy."""
+        import json
+
+        m = self.mirs[name]
+        if depth > 6 or l is None:
+            return None
+        ds = [d for d in m.defs().get(l, []) if d[0] in ("assign", "call")]
+        if len(ds) != 1 or ds[0][0] != "assign":
+            return None
+        rv = ds[0][3]
+        if rv.get("r") in ("Use", "Cast"):
+            op = rv["op"]
+            pl = op.get("p") if isinstance(op, dict) else None
+            if not pl:
+                return None
+            if not pl["proj"]:
+                return self.place_of(name, pl["l"], depth + 1)
+            if pl["proj"] == ["*"]:
+                rds = [d for d in m.defs().get(pl["l"], []) if d[0] in ("assign", "call")]
+                if len(rds) == 1 and rds[0][0] == "assign" and rds[0][3].get("r") == "Ref":
+                    rp = rds[0][3]["p"]
+                    return (rp["l"], json.dumps(rp["proj"], sort_keys=True))
+                return None
+            return (pl["l"], json.dumps(pl["proj"], sort_keys=True))
+        return None
+
     def guarded(self, name, l, block):
         """Is local l (or what it copies) known to be below a clean bound on every path to `block`?
         Looks for a dominating SwitchInt on a comparison of (a copy of) l with a clean operand, taken on the bounded side."""
         m = self.mirs[name]
         m.dominators()
         root = self.root_of(name, l)
+        my_place = self.place_of(name, root)
         for bl in m.blocks:
             t = bl["term"]
             if t["t"] != "SwitchInt" or bl["cleanup"]:
@@ -421,6 +451,12 @@ class Taint:
                 la, lb = F.op_base_local(a), F.op_base_local(b)
                 ra = self.root_of(name, la) if la is not None and not a["p"]["proj"] else None
                 rb = self.root_of(name, lb) if lb is not None and not b["p"]["proj"] else None
+                # the same PLACE read twice (guard of a match arm through a reference, binding of the arm by value)
+                if my_place is not None:
+                    if ra is not None and ra != root and self.place_of(name, ra) == my_place:
+                        ra = root
+                    if rb is not None and rb != root and self.place_of(name, rb) == my_place:
+                        rb = root
                 # normalise to "x < / <= bound"
                 if ra == root and not self.op_tainted(name, b):
                     bounded_when_true = op in ("Lt", "Le")
